@@ -81,7 +81,7 @@ func debugCmd(mode string, args []string) {
 	}
 	sv := smt.NewSolver(*timeout*3, "")
 	sv.RLimit = 40_000_000
-	sv.CandRLimit = 8_000_000
+	sv.CandRLimit = 24_000_000
 	runner := &check.Runner{Solver: sv, Workers: runtime.NumCPU()}
 	opt := govc.Options{Property: "DBG", Canary: true}
 	if mode == "sweep" {
